@@ -47,3 +47,8 @@ reg('C04', 'model_checking', 'X + H (input enumerator + history explorer)', 'bou
     'Every offset of a 64 KiB sandbox and null goes through both translation paths and twenty pointer-carrying positions with the guest-side bytes inspected; all create/destroy histories of three sandbox objects up to depth 5/7 (all 16 ordered live-lists) are executed and in each state every live instance must translate data and function pointers relative to itself, in mask mode and in registry mode (unaligned region, RLBox\'s own finder on the hot path).',
     'Three instances; offset 0 (representation 0 = null) excluded from the address round trip; the 32-bit instance is covered on a boundary lattice.',
     'DESIGN.md section 3, C04')
+
+reg('C07', 'exploration', 'X (exhaustive input enumerator)', 'bounded exhaustive enumeration vs reference encoder/decoder, whole-region byte diff, guard-page faults',
+    'Stores and seven load paths are executed for every supported type class at every alignment in the first and last bytes of a 64 KiB foreign-ABI region (objects ending on the last byte, PROT_NONE page behind) and a stride through the interior, for boundary values and three background patterns; after each store the entire region is compared with the reference image, each load with the reference decoding.',
+    'Reference codec and layout table are hand-written for lp32/16-bit pointers; interior addresses by stride; little-endian only.',
+    'DESIGN.md section 3, C07')
